@@ -21,6 +21,24 @@ def pad (n w : Nat) : String :=
 def showCivil (c : Rpki.X509.Civil) : String :=
   pad c.y 4 ++ pad c.m 2 ++ pad c.d 2 ++ pad c.h 2 ++ pad c.mi 2 ++ pad c.s 2
 
+/-- civil time of a unix timestamp (proleptic Gregorian; days-from-civil inverse) -/
+def civilOf (ts : Int) : Option Rpki.X509.Civil :=
+  let days := ts / 86400           -- Int division rounds toward zero for negatives: fix below
+  let days := if ts % 86400 < 0 then days - 1 else days
+  let secs := (ts - days * 86400).toNat
+  let z := days + 719468
+  let era := (if z ≥ 0 then z else z - 146096) / 146097
+  let doe := (z - era * 146097).toNat
+  let yoe := (doe - doe / 1460 + doe / 36524 - doe / 146096) / 365
+  let y := (yoe : Int) + era * 400
+  let doy := doe - (365 * yoe + yoe / 4 - yoe / 100)
+  let mp := (5 * doy + 2) / 153
+  let d := doy - (153 * mp + 2) / 5 + 1
+  let m := if mp < 10 then mp + 3 else mp - 9
+  let y := if m ≤ 2 then y + 1 else y
+  if y < 0 ∨ y > 9999 then none
+  else some ⟨y.toNat, m, d, secs / 3600, secs / 60 % 60, secs % 60⟩
+
 /-- the property's own wording of a legal name: a non-dot prefix of letters, digits, `-`, `_`,
 then one dot, then exactly three letters -/
 def nameSpec (n : Bytes) : Bool :=
@@ -82,6 +100,30 @@ def handle (toks : List String) (impl : String) : Verdict :=
     match parseHexN b with
     | some b => { oracle := oracle b impl }
     | _ => badOp "hex"
+  | ["enc", num, this, next, files] =>
+    match parseHexN num, this.toInt?, next.toInt? with
+    | some num, some t, some n =>
+      let entries : Option (List Entry) :=
+        if files = "-" then some [] else
+        (files.splitOn ";").mapM fun f => match f.splitOn ":" with
+          | [a, b] => match parseHexN a, parseHexN b with | some a, some b => some ⟨a, b⟩ | _, _ => none
+          | _ => none
+      match entries, civilOf t, civilOf n with
+      | some es, some tu, some nu =>
+        let number := List.replicate (20 - num.length) 0 ++ num
+        let enc := encodeContent number tu nu es
+        -- the model encoder must reproduce the library's bytes, and the model decoder must read them back
+        { model := some (hexN enc),
+          oracle := match parseHexN impl with
+            | none => some "unreadable"
+            | some der => match decodeContent der with
+              | none => some "the content written by ManifestContent::encode_ref is not accepted by the decoder"
+              | some m =>
+                if m.number ≠ number ∨ m.thisUpdate ≠ tu ∨ m.nextUpdate ≠ nu ∨ m.iter ≠ some es ∨ m.len ≠ es.length then
+                  some "the decoded manifest content differs from the builder's inputs"
+                else none }
+      | _, _, _ => badOp "enc args"
+    | _, _, _ => badOp "enc args"
   | ["hash", h, d] =>
     match parseHexN h, parseHexN d with
     | some h, some d =>
